@@ -1,6 +1,7 @@
 package main
 
 import (
+	"os"
 	"fmt"
 	"golang.org/x/tools/go/ssa/ssautil"
 	"go/types"
@@ -474,6 +475,33 @@ func (x *Exec) dynCall(st *State, f *Frame, c *ssa.CallCommon, args []Val, fnv V
 				}
 			}
 			bail("dyn pure %s: unsupported result type", name)
+		case "new":
+			// a constructor-like function value: the single result is a newly allocated object
+			v := x.freshResultsOpt(st, c.Signature(), "dyn_"+name, false)
+			var r Term
+			switch vv := v.(type) {
+			case IfaceV:
+				r = vv.Pay
+				st.assume(Not(Eq(vv.Tag, IntLit(0))))
+			case PtrV:
+				if oa, ok := vv.A.(ObjAddr); ok {
+					r = oa.Ref
+				}
+			}
+			if r.S == "" {
+				bail("dyn new %s: result is not a reference", name)
+			}
+			st.assume(Cmp(">", r, IntLit(0)))
+			st.assume(Not(Term{fmt.Sprintf("(select %s %s)", st.alloc.Name, r.S), SBool}))
+			n := newHeapConst("alloc", []Sort{SInt}, SBool, "al")
+			st.asserts = append(st.asserts, fmt.Sprintf("(= %s (store %s %s true))", n.Name, st.alloc.Name, r.S))
+			st.alloc = n
+			st.localRefs = append(st.localRefs, r)
+			if st.rec != nil {
+				st.rec.allocd[r.S] = true
+			}
+			x.zeroGhost(st, r) // a new object: nothing written to it yet
+			return v
 		case "effectfree", "fresh":
 			return x.freshResults(st, c.Signature(), "dyn_"+name)
 		}
@@ -586,11 +614,49 @@ func (x *Exec) applyContract(st *State, f *Frame, con *Contract, sig *types.Sign
 	}
 	before := st.snap()
 	hasMod := false
+	touchedRefFams := map[string]bool{}
 	for _, cl := range con.Clauses {
 		if cl.Kind == "modifies" {
 			hasMod = true
 			for _, m := range cl.Mods {
+				for _, loc := range x.targetLocs(env, m) {
+					if loc.FamPrefix == "" || (loc.FamPrefix == "clock" && loc.Exact) {
+						continue
+					}
+					for _, fam := range x.famsFor(st, loc) {
+						if _, ok := refFams.Load(fam); ok || strings.HasSuffix(fam, "#pay") {
+							touchedRefFams[fam] = true
+						}
+					}
+				}
 				x.havocTarget(st, env, m)
+			}
+		}
+	}
+	if len(touchedRefFams) > 0 {
+		// the callee may have allocated: the allocation set grows, and what it stored in the locations it
+		// may modify are objects that exist now (possibly its own new ones), never ones allocated later
+		n := newHeapConst("alloc", []Sort{SInt}, SBool, "al")
+		st.asserts = append(st.asserts, fmt.Sprintf("(forall ((r Int)) (! (=> (select %s r) (select %s r)) :pattern ((select %s r))))", st.alloc.Name, n.Name, n.Name))
+		st.asserts = append(st.asserts, fmt.Sprintf("(not (select %s 0))", n.Name))
+		st.alloc = n
+		for _, fam := range sortedKeys(touchedRefFams) {
+			h := st.heaps[fam]
+			if h == nil || h.Elem != SInt {
+				continue
+			}
+			if strings.HasSuffix(fam, "#pay") {
+				// interface payload: a sentinel / boxed scalar (<= 0) or an object that exists now
+				if len(h.Dims) == 1 {
+					st.asserts = append(st.asserts, fmt.Sprintf("(forall ((r Int)) (! (=> (select %s r) (or (<= (select %s r) 0) (select %s (select %s r)))) :pattern ((select %s r))))", n.Name, h.Name, n.Name, h.Name, h.Name))
+				}
+				continue
+			}
+			switch len(h.Dims) {
+			case 1:
+				st.asserts = append(st.asserts, fmt.Sprintf("(forall ((r Int)) (! (=> (select %s r) (or (= (select %s r) 0) (select %s (select %s r)))) :pattern ((select %s r))))", n.Name, h.Name, n.Name, h.Name, h.Name))
+			case 2:
+				st.asserts = append(st.asserts, fmt.Sprintf("(forall ((r Int) (k %s)) (! (=> (select %s r) (or (= (select (select %s r) k) 0) (select %s (select (select %s r) k)))) :pattern ((select (select %s r) k))))", h.Dims[1], n.Name, h.Name, n.Name, h.Name, h.Name))
 			}
 		}
 	}
@@ -976,8 +1042,12 @@ func (x *Exec) builtin(st *State, f *Frame, b *ssa.Builtin, c *ssa.CallCommon, a
 		}
 	case "append":
 		return x.appendVal(st, args[0], args[1], c)
+	case "close":
+		x.noteLib("channels: close has no modelled effect")
+		return nil
 	case "delete":
 		kt, vt := mapKV(c.Args[0].Type())
+		x.checkGuardedMapWrite(st, args[0].(Sc).T)
 		x.mapDelete(st, args[0].(Sc).T, kt, vt, x.mapKey(st, args[1]))
 		return nil
 	case "copy":
@@ -1105,6 +1175,26 @@ func (x *Exec) checkGuard(st *State, a Addr, write bool) {
 	x.emit(st, "lockset", fmt.Sprintf("%s.%s", ts.TypeName, field), fmt.Sprintf("access to %s.%s requires %s held", ts.TypeName, field, mu), nil, TFalse)
 }
 
+// checkGuardedMapWrite: a map reached through a guarded field is written only with the mutex held exclusively.
+func (x *Exec) checkGuardedMapWrite(st *State, m Term) {
+	g, ok := st.ghost["gm:"+m.S]
+	if os.Getenv("SSOVC_TRACE") != "" {
+		fmt.Fprintf(os.Stderr, "guarded-map-write? %s known=%v\n", m.S, ok)
+		for k := range st.ghost {
+			if strings.HasPrefix(k, "gm:") {
+				fmt.Fprintf(os.Stderr, "   %s\n", k)
+			}
+		}
+	}
+	if !ok {
+		return
+	}
+	if st.held[g.S] && st.ghost["rl:"+g.S].S == "" {
+		return
+	}
+	x.emit(st, "lockset", "guarded-map-write", "a write to a map guarded by a mutex requires the mutex held exclusively (not released, not a read lock)", nil, TFalse)
+}
+
 // lockOp handles Lock/Unlock/RLock/RUnlock on a mutex field of a type with a spec.
 func (x *Exec) lockOp(st *State, f *Frame, a Addr, lock bool) {
 	ref, t, field, ok := guardKey(a)
@@ -1140,6 +1230,7 @@ func (x *Exec) lockOp(st *State, f *Frame, a Addr, lock bool) {
 			case *types.Map:
 				fam := mapFam(ft.Key(), ft.Elem())
 				m := v.(Sc).T
+				st.ghost["gm:"+m.S] = Term{key, SInt} // this map is reachable only through the guarded field
 				st.havocRow("MD|"+fam, []Sort{SInt, keySort(ft.Key())}, SBool, m)
 				for _, l := range leavesOf(ft.Elem()) {
 					st.havocRow("MV|"+fam+"|"+l.Path, []Sort{SInt, keySort(ft.Key())}, l.Sort, m)
@@ -1199,6 +1290,7 @@ func (x *Exec) lockOp(st *State, f *Frame, a Addr, lock bool) {
 		x.emit(st, "typeinv-at-unlock", fmt.Sprintf("%s.%s", ts.TypeName, clauseLabel(cl, k)), cl.Text, cl.Props, env.evalBool(cl.E))
 	}
 	delete(st.held, key)
+	delete(st.ghost, "rl:"+key)
 }
 
 // applyUF is the uninterpreted application of an opaque pure function value.
@@ -1283,4 +1375,13 @@ func assumeNotOurSentinel(st *State, v Val) {
 			assumeNotOurSentinel(st, e)
 		}
 	}
+}
+
+func sortedKeys(m map[string]bool) []string {
+	var out []string
+	for k := range m {
+		out = append(out, k)
+	}
+	sort.Strings(out)
+	return out
 }
